@@ -475,4 +475,806 @@ theorem validateAsMx_split (r : Bytes) :
 theorem validateAsInSrv_split (r : Bytes) :
     validateAsInSrv r = .ok () ↔ (split? [.fixed 6, .name] r.toList).isSome := validateFixedName_split 6 r
 
+/-! ### name equality -/
+
+theorem lower_eq (b : UInt8) : lowerU8 b = specLower b := rfl
+
+theorem lower_small (l : UInt8) (h : l.toNat ≤ 63) : specLower l = l := by
+  unfold specLower; have : ¬ (0x41 ≤ l.toNat ∧ l.toNat ≤ 0x5a) := by omega
+  simp [this]
+
+theorem lower_small_inj (l l' : UInt8) (h : l.toNat ≤ 63) (h' : l'.toNat ≤ 63) :
+    specLower l = specLower l' ↔ l = l' := by
+  rw [lower_small l h, lower_small l' h']
+
+theorem labelEq_iff (a b : List UInt8) :
+    labelEq a b = true ↔ a.length = b.length ∧ a.map specLower = b.map specLower := by
+  unfold labelEq
+  induction a generalizing b with
+  | nil => cases b <;> simp
+  | cons x xs ih =>
+    cases b with
+    | nil => simp
+    | cons y ys =>
+      have := ih ys
+      simp [lower_eq] at this ⊢
+      intro h1 _
+      exact this h1
+
+def lblsEq (a b : List (List UInt8)) : Bool := (a.zip b).all (fun x => labelEq x.1 x.2)
+
+theorem labelsOf_root : labelsOf [0] = [[]] := by
+  rw [labelsOf]; simp; rw [labelsOf]
+
+theorem labelsOf_label (l : UInt8) (body rest : List UInt8) (hb : body.length = l.toNat) :
+    labelsOf (l :: (body ++ rest)) = body :: labelsOf rest := by
+  rw [labelsOf]
+  rw [← hb]
+  simp
+
+theorem nameEq_aux {w : List UInt8} {n : Nat} (h : LName w n) :
+    ∀ {w' : List UInt8} {n' : Nat}, LName w' n' →
+      ((n == n' && lblsEq (labelsOf w) (labelsOf w')) = true ↔ w.map specLower = w'.map specLower) := by
+  induction h with
+  | root =>
+    intro w' n' h'
+    cases h' with
+    | root => simp [labelsOf_root, lblsEq, labelEq]
+    | @label l' body' rest' m h0' h63' hb' tl' =>
+      have := tl'.pos
+      have e : ¬ (m = 0) := by omega
+      have : rest' ≠ [] := by intro e; rw [e] at this; simp at this
+      simp [e, this]
+  | @label l body rest n h0 h63 hb tl ih =>
+    intro w' n' h'
+    cases h' with
+    | root =>
+      have := tl.pos
+      have e : ¬ (n = 0) := by omega
+      have : rest ≠ [] := by intro e; rw [e] at this; simp at this
+      simp [e, this]
+    | @label l' body' rest' m h0' h63' hb' tl' =>
+      rw [labelsOf_label l body rest hb, labelsOf_label l' body' rest' hb']
+      have ih' := ih tl'
+      simp only [lblsEq, List.zip_cons_cons, List.all_cons, Bool.and_eq_true, beq_iff_eq] at ih' ⊢
+      rw [labelEq_iff]
+      simp only [List.map_cons, List.map_append, List.cons.injEq, Nat.add_right_cancel_iff]
+      rw [lower_small_inj l l' h63 h63']
+      constructor
+      · rintro ⟨hn, ⟨hlen, hbody⟩, hrest⟩
+        have hl : l = l' := by
+          apply UInt8.toNat_inj.mp; omega
+        refine ⟨hl, ?_⟩
+        rw [hbody, (ih'.mp ⟨hn, hrest⟩)]
+      · rintro ⟨hl, happ⟩
+        subst hl
+        have hlen : body.length = body'.length := by omega
+        obtain ⟨e1, e2⟩ := List.append_inj happ (by simp [hlen])
+        have := ih'.mpr e2
+        exact ⟨this.1, ⟨hlen, e1⟩, this.2⟩
+
+theorem nameEq_iff (p q : Parsed) (hp : LName p.wire p.nlabels) (hq : LName q.wire q.nlabels) :
+    nameEq p q = true ↔ NameCiEq p.wire q.wire := by
+  unfold nameEq NameCiEq
+  exact nameEq_aux hp hq
+
+
+theorem parseU_ok (x : Bytes) (p : Parsed) (h : parseUncompressed x false = .ok p) :
+    ∃ rest, x.toList = p.wire ++ rest ∧ LName p.wire p.nlabels ∧ p.len = p.wire.length ∧
+      validateUncompressed x false = .ok p.len := by
+  have hv := (validate_iff_parse x false p.len).mpr ⟨p, h, rfl⟩
+  unfold parseUncompressed at h
+  rw [uncompAux_track x 0 0 (by omega) (by omega)] at h
+  cases hu : uncompAux x false 0 0 with
+  | ok r =>
+    obtain ⟨off, nl⟩ := r
+    rw [hu] at h
+    simp at h
+    obtain ⟨w, rest, hb, hl, hlen, h255⟩ := (uncompAux_ok_iff x off nl).mp hu
+    subst h
+    have : List.take off x.toList = w := by rw [hb, ← hlen]; simp
+    simp only [this]
+    exact ⟨rest, hb, hl, hlen.symm, hv⟩
+  | err e => rw [hu] at h; cases h
+  | panic => rw [hu] at h; cases h
+
+/-- one iteration of `test_n_name_fields`, at list level -/
+theorem tnf_step (a b : Bytes) (n off : Nat) (ha : off ≤ a.size) (hb : off ≤ b.size) :
+    testNNameFieldsAux a b (n + 1) off =
+      match unameLen (a.toList.drop off), unameLen (b.toList.drop off) with
+      | none, none => .ok none
+      | some ka, some kb =>
+        if NameCiEq ((a.toList.drop off).take ka) ((b.toList.drop off).take kb)
+        then testNNameFieldsAux a b n (off + ka) else .ok (some none)
+      | _, _ => .ok (some none) := by
+  conv => lhs; unfold testNNameFieldsAux
+  simp only [sliceFrom_ok a off ha, sliceFrom_ok b off hb, Out.bind_ok, unameLen_drop]
+  have npa := parseUncompressed_no_panic (a.extract off a.size) false
+  have npb := parseUncompressed_no_panic (b.extract off b.size) false
+  cases hpa : parseUncompressed (a.extract off a.size) false with
+  | panic => exact absurd hpa npa
+  | err ea =>
+    have va := (validate_err_iff_parse _ false ea).mpr hpa
+    cases hpb : parseUncompressed (b.extract off b.size) false with
+    | panic => exact absurd hpb npb
+    | err eb =>
+      have vb := (validate_err_iff_parse _ false eb).mpr hpb
+      simp [va, vb, Out.toOption]
+    | ok q =>
+      obtain ⟨_, _, _, _, vb⟩ := parseU_ok _ q hpb
+      simp [va, vb, Out.toOption]
+  | ok p =>
+    obtain ⟨ra, hxa, hla, hka, va⟩ := parseU_ok _ p hpa
+    cases hpb : parseUncompressed (b.extract off b.size) false with
+    | panic => exact absurd hpb npb
+    | err eb =>
+      have vb := (validate_err_iff_parse _ false eb).mpr hpb
+      simp [va, vb, Out.toOption]
+    | ok q =>
+      obtain ⟨rb, hxb, hlb, hkb, vb⟩ := parseU_ok _ q hpb
+      simp only [va, vb, Out.toOption]
+      have e1 : List.take p.len (List.drop off a.toList) = p.wire := by
+        have : (a.extract off a.size).toList = List.drop off a.toList := by
+          simp; rw [List.take_of_length_le]; simp
+        rw [← this, hxa, hka]; simp
+      have e2 : List.take q.len (List.drop off b.toList) = q.wire := by
+        have : (b.extract off b.size).toList = List.drop off b.toList := by
+          simp; rw [List.take_of_length_le]; simp
+        rw [← this, hxb, hkb]; simp
+      rw [e1, e2]
+      by_cases hne : nameEq p q = true
+      · simp [hne, (nameEq_iff p q hla hlb).mp hne]
+      · have : ¬ NameCiEq p.wire q.wire := fun h => hne ((nameEq_iff p q hla hlb).mpr h)
+        simp [hne, this]
+
+/-! ### equality: model = Boolean spec over the deterministic splitter -/
+
+/-- field-wise comparison when both sides split along the layout, `fallback` otherwise -/
+def eqB' (l : List Field) (a b : List UInt8) (fallback : Bool) : Bool :=
+  match split? l a, split? l b with
+  | some fa, some fb => specFieldsEq l fa fb
+  | _, _ => fallback
+
+/-- Boolean form of `SpecEq` for a layout, over the deterministic splitter -/
+def eqB (l : List Field) (a b : List UInt8) : Bool := eqB' l a b (decide (a = b))
+
+theorem bytesEq_iff (a b : Bytes) : bytesEq a b = decide (a.toList = b.toList) := by
+  unfold bytesEq
+  by_cases h : a = b
+  · subst h; simp
+  · have : a.toList ≠ b.toList := fun e => h (Array.toList_inj.mp e)
+    simp [h, this]
+
+theorem nameCi_length {x y : List UInt8} (h : NameCiEq x y) : x.length = y.length := by
+  have := congrArg List.length h; simpa using this
+
+theorem nameCi_refl (x : List UInt8) : NameCiEq x x := rfl
+
+theorem split?_name_some (ls : List Field) (A : List UInt8) (k : Nat) (h : unameLen A = some k) :
+    split? (.name :: ls) A = (split? ls (A.drop k)).map (fun fs => A.take k :: fs) := by
+  simp [split?, h]
+
+theorem split?_name_none (ls : List Field) (A : List UInt8) (h : unameLen A = none) :
+    split? (.name :: ls) A = none := by
+  simp [split?, h]
+
+theorem split?_nil_drop (A : List UInt8) (k : Nat) (hk : k ≤ A.length) :
+    split? [] (A.drop k) = if k = A.length then some [] else none := by
+  simp only [split?, List.drop_eq_nil_iff]
+  by_cases h : k = A.length
+  · simp [h]
+  · have : ¬ A.length ≤ k := by omega
+    simp [h, this]
+
+theorem unameLen_ne {A B : List UInt8} (h : unameLen A ≠ unameLen B) : A ≠ B := by
+  intro e; rw [e] at h; exact h rfl
+
+theorem namesEqual_eq (a b : Bytes) : namesEqual a b = .ok (eqB [.name] a.toList b.toList) := by
+  unfold namesEqual testNNameFields
+  rw [tnf_step a b 0 0 (by omega) (by omega)]
+  simp only [List.drop_zero, testNNameFieldsAux, eqB, eqB', bytesEq_iff]
+  cases hA : unameLen a.toList with
+  | none =>
+    rw [split?_name_none _ _ hA]
+    cases hB : unameLen b.toList with
+    | none => simp
+    | some kb =>
+      have : a.toList ≠ b.toList := unameLen_ne (by rw [hA, hB]; simp)
+      simp [this]
+  | some ka =>
+    obtain ⟨hka, _⟩ := unameLen_le _ _ hA
+    rw [split?_name_some _ _ _ hA, split?_nil_drop _ _ hka]
+    cases hB : unameLen b.toList with
+    | none =>
+      have : a.toList ≠ b.toList := unameLen_ne (by rw [hA, hB]; simp)
+      rw [split?_name_none _ _ hB]
+      simp [this]
+    | some kb =>
+      obtain ⟨hkb, _⟩ := unameLen_le _ _ hB
+      rw [split?_name_some _ _ _ hB, split?_nil_drop _ _ hkb]
+      simp only [Array.length_toList] at hka hkb ⊢
+      by_cases hci : NameCiEq (List.take ka a.toList) (List.take kb b.toList)
+      · have hlen := nameCi_length hci
+        simp only [List.length_take, Array.length_toList] at hlen
+        have : ka = kb := by omega
+        subst this
+        simp only [hci, if_true, Out.bind_ok, Nat.zero_add]
+        by_cases h1 : ka = a.size
+        · by_cases h2 : ka = b.size
+          · simp only [eq_true h1, eq_true h2, and_self, if_true, Option.map_some, specFieldsEq]
+            have e : (List.map specLower (List.take ka a.toList) == List.map specLower (List.take ka b.toList)) = true := by
+              rw [beq_iff_eq]; exact hci
+            simp only [e, Bool.true_and]
+          · simp [eq_true h1, eq_false h2]
+        · simp [eq_false h1]
+      · have : a.toList ≠ b.toList := by
+          intro e
+          rw [e] at hA hci; rw [hA] at hB; cases hB; exact hci (nameCi_refl _)
+        simp only [hci, if_false, this, decide_false, Out.bind_ok]
+        have e : (List.map specLower (List.take ka a.toList) == List.map specLower (List.take kb b.toList)) = false := by
+          rw [beq_eq_false_iff_ne]; exact hci
+        by_cases h1 : ka = a.size <;> by_cases h2 : kb = b.size <;>
+          first
+          | (simp only [eq_true h1, eq_true h2, if_true, Option.map_some, specFieldsEq, e, Bool.false_and]; done)
+          | (simp only [eq_true h1, eq_false h2, if_true, if_false, Option.map_some, Option.map_none]; done)
+          | (simp only [eq_false h1, if_false, Option.map_none]; done)
+
+
+theorem split?_flatten (l : List Field) : ∀ (A : List UInt8) (fs : List (List UInt8)),
+    split? l A = some fs → fs.flatten = A := by
+  intro A fs h
+  have := (split?_iff l A fs).mp h
+  induction this with
+  | nil => rfl
+  | name hw tl ih => simp [ih ((split?_iff _ _ _).mpr tl)]
+  | fixed hf tl ih => simp [ih ((split?_iff _ _ _).mpr tl)]
+
+theorem specFieldsEq_length (l : List Field) : ∀ (fa fb : List (List UInt8)),
+    specFieldsEq l fa fb = true → fa.flatten.length = fb.flatten.length := by
+  induction l with
+  | nil => intro fa fb h; cases fa <;> cases fb <;> simp_all [specFieldsEq]
+  | cons f ls ih =>
+    intro fa fb h
+    cases fa with
+    | nil => cases f <;> simp [specFieldsEq] at h
+    | cons x xs =>
+      cases fb with
+      | nil => cases f <;> simp [specFieldsEq] at h
+      | cons y ys =>
+        cases f with
+        | name =>
+          simp only [specFieldsEq, Bool.and_eq_true, beq_iff_eq] at h
+          have := ih xs ys h.2
+          have hl := congrArg List.length h.1
+          simp only [List.length_map] at hl
+          simp only [List.flatten_cons, List.length_append]
+          omega
+        | fixed n =>
+          simp only [specFieldsEq, Bool.and_eq_true, beq_iff_eq] at h
+          have := ih xs ys h.2
+          simp only [List.flatten_cons, List.length_append]
+          rw [h.1]; omega
+
+theorem eqB_length (l : List Field) (A B : List UInt8) (h : eqB l A B = true) : A.length = B.length := by
+  unfold eqB eqB' at h
+  cases hA : split? l A with
+  | none => simp [hA] at h; rw [h]
+  | some fa =>
+    cases hB : split? l B with
+    | none => simp [hA, hB] at h; rw [h]
+    | some fb =>
+      simp only [hA, hB] at h
+      have := specFieldsEq_length l fa fb h
+      rw [split?_flatten l A fa hA, split?_flatten l B fb hB] at this
+      exact this
+
+theorem eqB_of_size_ne (l : List Field) (a b : Bytes) (h : a.size ≠ b.size) :
+    eqB l a.toList b.toList = false := by
+  cases he : eqB l a.toList b.toList with
+  | false => rfl
+  | true => have := eqB_length l _ _ he; simp at this; exact absurd this h
+
+
+/-! peeling one field off `eqB'` -/
+
+theorem eqB'_name_none_left (ls : List Field) (A B : List UInt8) (fb : Bool) (h : unameLen A = none) :
+    eqB' (.name :: ls) A B fb = fb := by
+  simp [eqB', split?_name_none _ _ h]
+
+theorem eqB'_name_none_right (ls : List Field) (A B : List UInt8) (fb : Bool) (h : unameLen B = none) :
+    eqB' (.name :: ls) A B fb = fb := by
+  unfold eqB'
+  rw [split?_name_none _ _ h]
+  cases split? (Field.name :: ls) A <;> rfl
+
+theorem ne_of_not_ci {A B : List UInt8} {ka kb : Nat} (hA : unameLen A = some ka) (hB : unameLen B = some kb)
+    (hci : ¬ NameCiEq (A.take ka) (B.take kb)) : A ≠ B := by
+  intro e; subst e; rw [hA] at hB; cases hB; exact hci (nameCi_refl _)
+
+theorem eqB'_name_not_ci (ls : List Field) (A B : List UInt8) (ka kb : Nat) (fb : Bool)
+    (hA : unameLen A = some ka) (hB : unameLen B = some kb)
+    (hci : ¬ NameCiEq (A.take ka) (B.take kb)) (hfb : fb = false) :
+    eqB' (.name :: ls) A B fb = false := by
+  unfold eqB'
+  rw [split?_name_some _ _ _ hA, split?_name_some _ _ _ hB]
+  have e : (List.map specLower (List.take ka A) == List.map specLower (List.take kb B)) = false := by
+    rw [beq_eq_false_iff_ne]; exact hci
+  cases split? ls (A.drop ka) <;> cases split? ls (B.drop kb) <;>
+    simp only [specFieldsEq, e, hfb, Option.map_some, Option.map_none, Bool.false_and]
+
+theorem eqB'_name_ci (ls : List Field) (A B : List UInt8) (k : Nat) (fb : Bool)
+    (hA : unameLen A = some k) (hB : unameLen B = some k)
+    (hci : NameCiEq (A.take k) (B.take k)) :
+    eqB' (.name :: ls) A B fb = eqB' ls (A.drop k) (B.drop k) fb := by
+  unfold eqB'
+  rw [split?_name_some _ _ _ hA, split?_name_some _ _ _ hB]
+  have e : (List.map specLower (List.take k A) == List.map specLower (List.take k B)) = true := by
+    rw [beq_iff_eq]; exact hci
+  cases split? ls (A.drop k) <;> cases split? ls (B.drop k) <;>
+    simp only [specFieldsEq, e, Option.map_some, Option.map_none, Bool.true_and]
+
+theorem eqB'_nil (A B : List UInt8) (fb : Bool) :
+    eqB' [] A B fb = if A = [] ∧ B = [] then true else fb := by
+  unfold eqB'
+  simp only [split?]
+  by_cases h1 : A = [] <;> by_cases h2 : B = [] <;> simp [h1, h2, specFieldsEq]
+
+theorem eqB'_fixed_last (n : Nat) (A B : List UInt8) (fb : Bool) :
+    eqB' [.fixed n] A B fb = if A.length = n ∧ B.length = n then decide (A = B) else fb := by
+  unfold eqB'
+  simp only [split?, List.drop_eq_nil_iff]
+  by_cases h1 : A.length = n <;> by_cases h2 : B.length = n
+  · subst h1
+    have e : List.take A.length B = B := by rw [← h2]; simp
+    simp [h2, specFieldsEq, e]
+    by_cases h : A = B <;> simp [h]
+  · have : ¬ (n ≤ B.length ∧ B.length ≤ n) := by omega
+    by_cases h3 : n ≤ B.length
+    · have h4 : ¬ B.length ≤ n := by omega
+      simp [h1, h2, h3, h4]
+    · simp [h1, h2, h3]
+  · by_cases h3 : n ≤ A.length
+    · have h4 : ¬ A.length ≤ n := by omega
+      simp [h1, h3, h4]
+    · simp [h1, h3]
+  · by_cases h3 : n ≤ A.length
+    · have h4 : ¬ A.length ≤ n := by omega
+      simp [h1, h3, h4]
+    · simp [h1, h3]
+
+theorem eqB'_fixed_first (n : Nat) (ls : List Field) (A B : List UInt8) (fb : Bool)
+    (hA : n ≤ A.length) (hB : n ≤ B.length) :
+    eqB' (.fixed n :: ls) A B fb =
+      match split? ls (A.drop n), split? ls (B.drop n) with
+      | some fa, some fb' => decide (A.take n = B.take n) && specFieldsEq ls fa fb'
+      | _, _ => fb := by
+  unfold eqB'
+  simp only [split?, hA, hB, if_true]
+  cases split? ls (A.drop n) <;> cases split? ls (B.drop n) <;>
+    simp only [specFieldsEq, Option.map_some, Option.map_none]
+  by_cases h : List.take n A = List.take n B <;> simp [h]
+
+
+theorem drop_ne {A B : List UInt8} {k : Nat} (h : A.drop k ≠ B.drop k) : A ≠ B := by
+  intro e; subst e; exact h rfl
+
+@[simp] theorem csub_ok (a b : Nat) (h : b ≤ a) : csub a b = .ok (a - b) := by simp [csub, h]
+
+theorem toList_extract_from (b : Bytes) (k : Nat) : (b.extract k b.size).toList = b.toList.drop k := by
+  simp; rw [List.take_of_length_le]; simp
+
+theorem equalsAsSoa_eq (a b : Bytes) :
+    equalsAsSoa a b = .ok (eqB [.name, .name, .fixed 20] a.toList b.toList) := by
+  unfold equalsAsSoa
+  by_cases hs : ¬ a.size = b.size
+  · simp [hs, eqB_of_size_ne _ a b hs]
+  have hs : a.size = b.size := Decidable.not_not.mp hs
+  simp only [eq_true hs, ne_eq, not_true_eq_false, if_false]
+  unfold testNNameFields eqB
+  rw [tnf_step a b 1 0 (by omega) (by omega)]
+  simp only [List.drop_zero, bytesEq_iff, Nat.zero_add]
+  cases hA : unameLen a.toList with
+  | none =>
+    rw [eqB'_name_none_left _ _ _ _ hA]
+    cases hB : unameLen b.toList with
+    | none => simp
+    | some kb =>
+      have : a.toList ≠ b.toList := unameLen_ne (by rw [hA, hB]; simp)
+      simp [this]
+  | some ka =>
+    obtain ⟨hka, _⟩ := unameLen_le _ _ hA
+    cases hB : unameLen b.toList with
+    | none =>
+      rw [eqB'_name_none_right _ _ _ _ hB]
+      have : a.toList ≠ b.toList := unameLen_ne (by rw [hA, hB]; simp)
+      simp [this]
+    | some kb =>
+      obtain ⟨hkb, _⟩ := unameLen_le _ _ hB
+      simp only [Array.length_toList] at hka hkb
+      by_cases hci : ¬ NameCiEq (List.take ka a.toList) (List.take kb b.toList)
+      · have hne := ne_of_not_ci hA hB hci
+        rw [eqB'_name_not_ci _ _ _ _ _ _ hA hB hci (by simp [hne])]
+        simp [hci]
+      have hci := Decidable.not_not.mp hci
+      have hlen := nameCi_length hci
+      simp only [List.length_take, Array.length_toList] at hlen
+      have : ka = kb := by omega
+      subst this
+      rw [eqB'_name_ci _ _ _ _ _ hA hB hci]
+      simp only [hci, if_true]
+      rw [tnf_step a b 0 ka hka hkb]
+      -- second name
+      cases hA2 : unameLen (a.toList.drop ka) with
+      | none =>
+        rw [eqB'_name_none_left _ _ _ _ hA2]
+        cases hB2 : unameLen (b.toList.drop ka) with
+        | none => simp
+        | some kb2 =>
+          have : a.toList ≠ b.toList := drop_ne (unameLen_ne (by rw [hA2, hB2]; simp))
+          simp [this]
+      | some k2 =>
+        obtain ⟨hk2, _⟩ := unameLen_le _ _ hA2
+        cases hB2 : unameLen (b.toList.drop ka) with
+        | none =>
+          rw [eqB'_name_none_right _ _ _ _ hB2]
+          have : a.toList ≠ b.toList := drop_ne (unameLen_ne (by rw [hA2, hB2]; simp))
+          simp [this]
+        | some kb2 =>
+          obtain ⟨hkb2, _⟩ := unameLen_le _ _ hB2
+          simp only [List.length_drop, Array.length_toList] at hk2 hkb2
+          by_cases hci2 : ¬ NameCiEq (List.take k2 (a.toList.drop ka)) (List.take kb2 (b.toList.drop ka))
+          · have hne := drop_ne (ne_of_not_ci hA2 hB2 hci2)
+            rw [eqB'_name_not_ci _ _ _ _ _ _ hA2 hB2 hci2 (by simp [hne])]
+            simp [hci2]
+          have hci2 := Decidable.not_not.mp hci2
+          have hlen2 := nameCi_length hci2
+          simp only [List.length_take, List.length_drop, Array.length_toList] at hlen2
+          have : k2 = kb2 := by omega
+          subst this
+          rw [eqB'_name_ci _ _ _ _ _ hA2 hB2 hci2, eqB'_fixed_last]
+          simp only [hci2, if_true, testNNameFieldsAux, Out.bind_ok, csub_ok a.size (ka + k2) (by omega),
+            List.drop_drop, List.length_drop, Array.length_toList]
+          by_cases h20 : a.size - (ka + k2) = 20
+          · have h20' : b.size - (ka + k2) = 20 := by omega
+            simp only [h20, ne_eq, not_true_eq_false, if_false, sliceFrom_ok a (ka + k2) (by omega),
+              sliceFrom_ok b (ka + k2) (by omega), Out.bind_ok, bytesEq_iff, toList_extract_from]
+            simp [h20, h20', Nat.add_comm]
+          · have h20' : ¬ b.size - (ka + k2) = 20 := by omega
+            simp [h20, h20', Nat.add_comm]
+
+
+theorem equalsAsMinfo_eq (a b : Bytes) :
+    equalsAsMinfo a b = .ok (eqB [.name, .name] a.toList b.toList) := by
+  unfold equalsAsMinfo
+  by_cases hs : ¬ a.size = b.size
+  · simp [hs, eqB_of_size_ne _ a b hs]
+  have hs : a.size = b.size := Decidable.not_not.mp hs
+  simp only [eq_true hs, ne_eq, not_true_eq_false, if_false]
+  unfold testNNameFields eqB
+  rw [tnf_step a b 1 0 (by omega) (by omega)]
+  simp only [List.drop_zero, bytesEq_iff, Nat.zero_add]
+  cases hA : unameLen a.toList with
+  | none =>
+    rw [eqB'_name_none_left _ _ _ _ hA]
+    cases hB : unameLen b.toList with
+    | none => simp
+    | some kb =>
+      have : a.toList ≠ b.toList := unameLen_ne (by rw [hA, hB]; simp)
+      simp [this]
+  | some ka =>
+    obtain ⟨hka, _⟩ := unameLen_le _ _ hA
+    cases hB : unameLen b.toList with
+    | none =>
+      rw [eqB'_name_none_right _ _ _ _ hB]
+      have : a.toList ≠ b.toList := unameLen_ne (by rw [hA, hB]; simp)
+      simp [this]
+    | some kb =>
+      obtain ⟨hkb, _⟩ := unameLen_le _ _ hB
+      simp only [Array.length_toList] at hka hkb
+      by_cases hci : ¬ NameCiEq (List.take ka a.toList) (List.take kb b.toList)
+      · have hne := ne_of_not_ci hA hB hci
+        rw [eqB'_name_not_ci _ _ _ _ _ _ hA hB hci (by simp [hne])]
+        simp [hci]
+      have hci := Decidable.not_not.mp hci
+      have hlen := nameCi_length hci
+      simp only [List.length_take, Array.length_toList] at hlen
+      have : ka = kb := by omega
+      subst this
+      rw [eqB'_name_ci _ _ _ _ _ hA hB hci]
+      simp only [hci, if_true]
+      rw [tnf_step a b 0 ka hka hkb]
+      cases hA2 : unameLen (a.toList.drop ka) with
+      | none =>
+        rw [eqB'_name_none_left _ _ _ _ hA2]
+        cases hB2 : unameLen (b.toList.drop ka) with
+        | none => simp
+        | some kb2 =>
+          have : a.toList ≠ b.toList := drop_ne (unameLen_ne (by rw [hA2, hB2]; simp))
+          simp [this]
+      | some k2 =>
+        obtain ⟨hk2, _⟩ := unameLen_le _ _ hA2
+        cases hB2 : unameLen (b.toList.drop ka) with
+        | none =>
+          rw [eqB'_name_none_right _ _ _ _ hB2]
+          have : a.toList ≠ b.toList := drop_ne (unameLen_ne (by rw [hA2, hB2]; simp))
+          simp [this]
+        | some kb2 =>
+          obtain ⟨hkb2, _⟩ := unameLen_le _ _ hB2
+          simp only [List.length_drop, Array.length_toList] at hk2 hkb2
+          by_cases hci2 : ¬ NameCiEq (List.take k2 (a.toList.drop ka)) (List.take kb2 (b.toList.drop ka))
+          · have hne := drop_ne (ne_of_not_ci hA2 hB2 hci2)
+            rw [eqB'_name_not_ci _ _ _ _ _ _ hA2 hB2 hci2 (by simp [hne])]
+            simp [hci2]
+          have hci2 := Decidable.not_not.mp hci2
+          have hlen2 := nameCi_length hci2
+          simp only [List.length_take, List.length_drop, Array.length_toList] at hlen2
+          have : k2 = kb2 := by omega
+          subst this
+          rw [eqB'_name_ci _ _ _ _ _ hA2 hB2 hci2, eqB'_nil]
+          simp only [hci2, if_true, testNNameFieldsAux, Out.bind_ok, List.drop_drop, List.drop_eq_nil_iff,
+            Array.length_toList]
+          by_cases hend : ka + k2 = a.size
+          · have e1 : a.size ≤ ka + k2 := by omega
+            have e2 : b.size ≤ ka + k2 := by omega
+            rw [if_pos hend, if_pos ⟨e1, e2⟩]
+          · have e1 : ¬ a.size ≤ ka + k2 := by omega
+            rw [if_neg hend, if_neg (fun h => e1 h.1)]
+
+theorem equalsAsChA_eq (a b : Bytes) :
+    equalsAsChA a b = .ok (eqB [.name, .fixed 2] a.toList b.toList) := by
+  unfold equalsAsChA
+  by_cases hs : ¬ a.size = b.size
+  · simp [hs, eqB_of_size_ne _ a b hs]
+  have hs : a.size = b.size := Decidable.not_not.mp hs
+  simp only [eq_true hs, ne_eq, not_true_eq_false, if_false]
+  unfold testNNameFields eqB
+  rw [tnf_step a b 0 0 (by omega) (by omega)]
+  simp only [List.drop_zero, bytesEq_iff, Nat.zero_add]
+  cases hA : unameLen a.toList with
+  | none =>
+    rw [eqB'_name_none_left _ _ _ _ hA]
+    cases hB : unameLen b.toList with
+    | none => simp
+    | some kb =>
+      have : a.toList ≠ b.toList := unameLen_ne (by rw [hA, hB]; simp)
+      simp [this]
+  | some ka =>
+    obtain ⟨hka, _⟩ := unameLen_le _ _ hA
+    cases hB : unameLen b.toList with
+    | none =>
+      rw [eqB'_name_none_right _ _ _ _ hB]
+      have : a.toList ≠ b.toList := unameLen_ne (by rw [hA, hB]; simp)
+      simp [this]
+    | some kb =>
+      obtain ⟨hkb, _⟩ := unameLen_le _ _ hB
+      simp only [Array.length_toList] at hka hkb
+      by_cases hci : ¬ NameCiEq (List.take ka a.toList) (List.take kb b.toList)
+      · have hne := ne_of_not_ci hA hB hci
+        rw [eqB'_name_not_ci _ _ _ _ _ _ hA hB hci (by simp [hne])]
+        simp [hci]
+      have hci := Decidable.not_not.mp hci
+      have hlen := nameCi_length hci
+      simp only [List.length_take, Array.length_toList] at hlen
+      have : ka = kb := by omega
+      subst this
+      rw [eqB'_name_ci _ _ _ _ _ hA hB hci, eqB'_fixed_last]
+      simp only [hci, if_true, testNNameFieldsAux, Out.bind_ok, List.length_drop, Array.length_toList]
+      by_cases h2 : ka + 2 = a.size
+      · have e1 : a.size - ka = 2 := by omega
+        have e2 : b.size - ka = 2 := by omega
+        simp only [h2, if_true, sliceFrom_ok a ka hka, sliceFrom_ok b ka hkb, Out.bind_ok, bytesEq_iff,
+          toList_extract_from, e1, e2, and_self]
+      · have e1 : ¬ a.size - ka = 2 := by omega
+        simp [h2, e1]
+
+
+theorem unameLen_nil : unameLen [] = none := by
+  cases h : unameLen [] with
+  | none => rfl
+  | some k => have := unameLen_le _ _ h; simp at this; omega
+
+@[simp] theorem slice_ok (b : Bytes) (i j : Nat) (h : i ≤ j ∧ j ≤ b.size) :
+    slice b i j = .ok (b.extract i j) := by simp [slice, h]
+
+theorem equalsFixedThenName_eq (n : Nat) (a b : Bytes) :
+    equalsFixedThenName n a b = .ok (eqB [.fixed n, .name] a.toList b.toList) := by
+  unfold equalsFixedThenName
+  by_cases hs : ¬ a.size = b.size
+  · simp [hs, eqB_of_size_ne _ a b hs]
+  have hs : a.size = b.size := Decidable.not_not.mp hs
+  simp only [eq_true hs, ne_eq, not_true_eq_false, if_false]
+  unfold eqB
+  by_cases hn : a.size > n
+  · have hn' : b.size > n := by omega
+    rw [eqB'_fixed_first n _ _ _ _ (by simp; omega) (by simp; omega)]
+    simp only [hn, if_true, slice_ok a 0 n (by omega), slice_ok b 0 n (by omega), Out.bind_ok, bytesEq_iff,
+      sliceFrom_ok a n (by omega), sliceFrom_ok b n (by omega)]
+    have ea : (a.extract 0 n).toList = a.toList.take n := by simp
+    have eb : (b.extract 0 n).toList = b.toList.take n := by simp
+    rw [ea, eb]
+    by_cases hp : a.toList.take n = b.toList.take n
+    · simp only [hp, decide_true, if_true, Bool.true_and]
+      rw [namesEqual_eq, toList_extract_from, toList_extract_from]
+      unfold eqB eqB'
+      have : (a.toList = b.toList) ↔ (a.toList.drop n = b.toList.drop n) := by
+        constructor
+        · intro e; rw [e]
+        · intro e
+          rw [← List.take_append_drop n a.toList, ← List.take_append_drop n b.toList, hp, e]
+      simp only [this]
+    · have hne : a.toList ≠ b.toList := by intro e; rw [e] at hp; exact hp rfl
+      simp only [hp, decide_false, Bool.false_eq_true, if_false, Bool.false_and, hne]
+      cases split? [Field.name] (a.toList.drop n) <;> cases split? [Field.name] (b.toList.drop n) <;> rfl
+  · have e1 : ¬ (n < a.size) := by omega
+    simp only [gt_iff_lt, e1, if_false, bytesEq_iff]
+    unfold eqB'
+    have : split? [Field.fixed n, Field.name] a.toList = none := by
+      simp only [split?]
+      by_cases h : n ≤ a.toList.length
+      · have : a.toList.drop n = [] := by simp at h ⊢; omega
+        simp [h, this, unameLen_nil]
+      · simp only [h, if_false]
+    rw [this]
+
+theorem equalsAsMx_eq (a b : Bytes) : equalsAsMx a b = .ok (eqB [.fixed 2, .name] a.toList b.toList) :=
+  equalsFixedThenName_eq 2 a b
+
+theorem equalsAsInSrv_eq (a b : Bytes) : equalsAsInSrv a b = .ok (eqB [.fixed 6, .name] a.toList b.toList) :=
+  equalsFixedThenName_eq 6 a b
+
+
+theorem specFieldsEq_iff (l : List Field) : ∀ (fa fb : List (List UInt8)),
+    specFieldsEq l fa fb = true ↔ FieldsEq l fa fb := by
+  induction l with
+  | nil =>
+    intro fa fb
+    cases fa <;> cases fb <;> simp [specFieldsEq]
+    · exact FieldsEq.nil
+    all_goals (intro h; cases h)
+  | cons f ls ih =>
+    intro fa fb
+    cases fa with
+    | nil => cases f <;> simp [specFieldsEq] <;> (intro h; cases h)
+    | cons x xs =>
+      cases fb with
+      | nil => cases f <;> simp [specFieldsEq] <;> (intro h; cases h)
+      | cons y ys =>
+        cases f with
+        | name =>
+          simp only [specFieldsEq, Bool.and_eq_true, beq_iff_eq, ih]
+          constructor
+          · rintro ⟨h1, h2⟩; exact FieldsEq.name h1 h2
+          · intro h; cases h with | name h1 h2 => exact ⟨h1, h2⟩
+        | fixed n =>
+          simp only [specFieldsEq, Bool.and_eq_true, beq_iff_eq, ih]
+          constructor
+          · rintro ⟨h1, h2⟩; exact FieldsEq.fixed h1 h2
+          · intro h; cases h with | fixed h1 h2 => exact ⟨h1, h2⟩
+
+theorem fieldsEq_refl {l a fa} (h : Splits l a fa) : FieldsEq l fa fa := by
+  induction h with
+  | nil => exact FieldsEq.nil
+  | name hw tl ih => exact FieldsEq.name rfl ih
+  | fixed hf tl ih => exact FieldsEq.fixed rfl ih
+
+theorem fieldsEq_symm {l fa fb} (h : FieldsEq l fa fb) : FieldsEq l fb fa := by
+  induction h with
+  | nil => exact FieldsEq.nil
+  | name h tl ih => exact FieldsEq.name h.symm ih
+  | fixed h tl ih => exact FieldsEq.fixed h.symm ih
+
+theorem fieldsEq_trans {l fa fb fc} (h : FieldsEq l fa fb) : FieldsEq l fb fc → FieldsEq l fa fc := by
+  induction h generalizing fc with
+  | nil => intro h2; exact h2
+  | name h tl ih => intro h2; cases h2 with | name h' tl' => exact FieldsEq.name (h.trans h') (ih tl')
+  | fixed h tl ih => intro h2; cases h2 with | fixed h' tl' => exact FieldsEq.fixed (h.trans h') (ih tl')
+
+/-- `SpecEq` with the layout made explicit -/
+def LayoutEq (l : List Field) (a b : List UInt8) : Prop :=
+  (∃ fa fb, Splits l a fa ∧ Splits l b fb ∧ FieldsEq l fa fb) ∨
+  (¬ ((∃ fa, Splits l a fa) ∧ (∃ fb, Splits l b fb)) ∧ a = b)
+
+theorem eqB_iff (l : List Field) (a b : List UInt8) : eqB l a b = true ↔ LayoutEq l a b := by
+  unfold eqB eqB' LayoutEq
+  cases hA : split? l a with
+  | none =>
+    have na : ¬ ∃ fa, Splits l a fa := by
+      rintro ⟨fa, h⟩; rw [(split?_iff l a fa).mpr h] at hA; cases hA
+    simp only [decide_eq_true_eq]
+    constructor
+    · intro e; exact Or.inr ⟨fun h => na h.1, e⟩
+    · rintro (⟨fa, _, h, _⟩ | ⟨_, e⟩)
+      · exact absurd ⟨fa, h⟩ na
+      · exact e
+  | some fa =>
+    have sa := (split?_iff l a fa).mp hA
+    cases hB : split? l b with
+    | none =>
+      have nb : ¬ ∃ fb, Splits l b fb := by
+        rintro ⟨fb, h⟩; rw [(split?_iff l b fb).mpr h] at hB; cases hB
+      simp only [decide_eq_true_eq]
+      constructor
+      · intro e; exact Or.inr ⟨fun h => nb h.2, e⟩
+      · rintro (⟨_, fb, _, h, _⟩ | ⟨_, e⟩)
+        · exact absurd ⟨fb, h⟩ nb
+        · exact e
+    | some fb =>
+      have sb := (split?_iff l b fb).mp hB
+      simp only [specFieldsEq_iff]
+      constructor
+      · intro h; exact Or.inl ⟨fa, fb, sa, sb, h⟩
+      · rintro (⟨fa', fb', ha', hb', h⟩ | ⟨hn, _⟩)
+        · rw [splits_unique sa ha', splits_unique sb hb']; exact h
+        · exact absurd ⟨⟨fa, sa⟩, ⟨fb, sb⟩⟩ hn
+
+theorem layoutEq_refl (l : List Field) (a : List UInt8) : LayoutEq l a a := by
+  by_cases h : ∃ fa, Splits l a fa
+  · obtain ⟨fa, h⟩ := h; exact Or.inl ⟨fa, fa, h, h, fieldsEq_refl h⟩
+  · exact Or.inr ⟨fun x => h x.1, rfl⟩
+
+theorem layoutEq_symm {l : List Field} {a b : List UInt8} (h : LayoutEq l a b) : LayoutEq l b a := by
+  rcases h with ⟨fa, fb, ha, hb, h⟩ | ⟨hn, e⟩
+  · exact Or.inl ⟨fb, fa, hb, ha, fieldsEq_symm h⟩
+  · exact Or.inr ⟨fun x => hn ⟨x.2, x.1⟩, e.symm⟩
+
+theorem layoutEq_trans {l : List Field} {a b c : List UInt8} (h1 : LayoutEq l a b) (h2 : LayoutEq l b c) :
+    LayoutEq l a c := by
+  rcases h1 with ⟨fa, fb, ha, hb, h⟩ | ⟨hn, e⟩
+  · rcases h2 with ⟨fb', fc, hb', hc, h'⟩ | ⟨hn', e'⟩
+    · rw [← splits_unique hb hb'] at h'
+      exact Or.inl ⟨fa, fc, ha, hc, fieldsEq_trans h h'⟩
+    · subst e'; exact Or.inl ⟨fa, fb, ha, hb, h⟩
+  · subst e; exact h2
+
+
+/-! ### dispatch through the generated tables = the RFC table `fmtOf` -/
+
+/-- peel off one type code: in the positive branch decide the classes and finish with `tac` -/
+macro "tcase " t:ident c:ident k:num " with " tac:tactic : tactic => `(tactic|
+  (by_cases h : $t = $k
+   · (subst h; by_cases c1 : $c = 1 <;> by_cases c3 : $c = 3 <;> $tac)))
+
+/-- case split on every type code that occurs in a dispatch table or in `fmtOf` -/
+macro "dispatch_cases " t:ident c:ident " with " tac:tactic : tactic => `(tactic| (
+  tcase $t $c 1 with $tac; tcase $t $c 2 with $tac; tcase $t $c 3 with $tac; tcase $t $c 4 with $tac
+  tcase $t $c 5 with $tac; tcase $t $c 6 with $tac; tcase $t $c 7 with $tac; tcase $t $c 8 with $tac
+  tcase $t $c 9 with $tac; tcase $t $c 11 with $tac; tcase $t $c 12 with $tac; tcase $t $c 13 with $tac
+  tcase $t $c 14 with $tac; tcase $t $c 15 with $tac; tcase $t $c 16 with $tac; tcase $t $c 28 with $tac
+  tcase $t $c 33 with $tac; tcase $t $c 41 with $tac; tcase $t $c 250 with $tac
+  $tac))
+
+def validateFmt : Fmt → Bytes → Out RErr Unit
+  | .name => validateName | .inA => validateAsInA | .chA => validateAsChA | .soa => validateAsSoa
+  | .wks => validateAsInWks | .hinfo => validateAsHinfo | .minfo => validateAsMinfo | .mx => validateAsMx
+  | .txt => validateAsTxt | .aaaa => validateAsInAaaa | .srv => validateAsInSrv | .opt => validateAsOpt
+  | .tsig => validateAsTsig | .opaque => fun _ => .ok ()
+
+def equalsFmt : Fmt → Bytes → Bytes → Out RErr Bool
+  | .name => namesEqual | .chA => equalsAsChA | .soa => equalsAsSoa | .minfo => equalsAsMinfo
+  | .mx => equalsAsMx | .srv => equalsAsInSrv
+  | _ => fun a b => .ok (bytesEq a b)
+
+def readFmt : Fmt → Bytes → Nat → Nat → Out RErr Bytes
+  | .name => readNameRdata | .chA => readChA | .soa => readSoa | .minfo => readMinfo | .mx => readMx
+  | .srv => readInSrv
+  | f => withoutDecompression (validateFmt f)
+
+theorem validate_eq (c t : Nat) (r : Bytes) : validate c t r = validateFmt (fmtOf c t) r := by
+  unfold validate fmtOf
+  simp only [lookup, Gen.rdataValidateArms, Gen.rdataValidateDefault]
+  simp only [List.contains_cons, List.contains_nil, Bool.or_false, beq_iff_eq, Bool.and_true, Bool.and_eq_true, Bool.or_eq_true]
+  dispatch_cases t c with (simp_all [validateHandler, validateFmt])
+
+theorem equals_eq (c t : Nat) (a b : Bytes) : equals c t a b = equalsFmt (fmtOf c t) a b := by
+  unfold equals fmtOf
+  simp only [lookup, Gen.rdataEqualsArms, Gen.rdataEqualsDefault]
+  simp only [List.contains_cons, List.contains_nil, Bool.or_false, beq_iff_eq, Bool.and_true, Bool.and_eq_true, Bool.or_eq_true]
+  dispatch_cases t c with (simp_all [equalsHandler, equalsFmt])
+
+theorem read_eq (c t : Nat) (msg : Bytes) (cur len : Nat) : read c t msg cur len = readFmt (fmtOf c t) msg cur len := by
+  unfold read fmtOf
+  simp only [lookup, Gen.rdataReadArms, Gen.rdataReadDefault]
+  simp only [List.contains_cons, List.contains_nil, Bool.or_false, beq_iff_eq, Bool.and_true, Bool.and_eq_true, Bool.or_eq_true]
+  dispatch_cases t c with (simp_all [readHandler, readFmt, validateFmt])
+
 end QV.Rdata
